@@ -103,7 +103,8 @@ theorem exAffine_compile (tol : Ext K) (n : Nat) :
       (exAffine : Model (Ext K)).domain).variableBounds)
     (((Analyzer.analyze (exAffine : Model (Ext K)).domain (exAffine : Model (Ext K)).constraints tol n).enforceable
       (exAffine : Model (Ext K)).domain).applyToDomain (exAffine : Model (Ext K)).domain)
-  refine ⟨lm, (compile_ok_iff _ _ _ _).mpr ⟨_, ?_, h⟩⟩
+  refine ⟨lm, (compile_ok_iff _ _ _ _).mpr ⟨scratchOK_frag (ext := true) _ _ (by simp [exAffine, frag])
+    (by intro c hc; simp only [exAffine, List.mem_singleton] at hc; subst hc; simp [frag]), _, ?_, h⟩⟩
   simp [pipelineAnalyzer, exAffine_normalized]
 
 theorem exAffine_declOK : DeclOK (exAffine : Model (Ext K)).domain := by
@@ -173,7 +174,9 @@ theorem exAbs_compile (tol : Ext K) : ∃ lm, Compile.linearize (exAbs : Model (
     (Compile.toLinBounds ({ Analyzer.fromDomain (exAbs : Model (Ext K)).domain tol with reachedIterationLimit := true } : Analyzer (Ext K)).variableBounds)
     (by simp [Compile.toLinBounds, Analyzer.fromDomain, exAbs, AList.insert, Bounds.ofVarType, lookupB])
   refine ⟨lm, (compile_ok_iff _ _ _ _).mpr
-    ⟨{ Analyzer.fromDomain (exAbs : Model (Ext K)).domain tol with reachedIterationLimit := true }, ?_, ?_⟩⟩
+    ⟨scratchOK_frag (ext := true) _ _ (by simp [exAbs, frag])
+      (by intro c hc; simp only [exAbs, List.mem_singleton] at hc; subst hc; simp [frag]),
+     { Analyzer.fromDomain (exAbs : Model (Ext K)).domain tol with reachedIterationLimit := true }, ?_, ?_⟩⟩
   · simp only [pipelineAnalyzer, exAbs_normalized, Option.map_some, exAbs_analyzer]
   · rw [hd]; exact h
 
